@@ -4167,10 +4167,24 @@ func (p *Posix) CopyObject(ctx context.Context, input s3response.CopyObjectInput
 	var chType types.ChecksumType
 
 	dstObjdPath := joinPathWithTrailer(dstBucket, dstObject)
-	if dstObjdPath == objPath {
-		if input.MetadataDirective == types.MetadataDirectiveCopy {
-			return &s3.CopyObjectOutput{}, s3err.GetAPIError(s3err.ErrInvalidCopyDest)
+	inPlace := dstObjdPath == objPath
+	if inPlace && input.MetadataDirective == types.MetadataDirectiveCopy {
+		return &s3.CopyObjectOutput{}, s3err.GetAPIError(s3err.ErrInvalidCopyDest)
+	}
+	if inPlace && p.versioningEnabled() && !strings.HasSuffix(dstObject, "/") {
+		vStatus, err := p.getBucketVersioningStatus(ctx, dstBucket)
+		if err != nil {
+			return nil, err
 		}
+		// In a bucket with versioning enabled a copy of an object onto
+		// itself is a write like any other: it yields a new version and
+		// leaves the copied one as it was, instead of rewriting the
+		// attributes of the existing version in place.
+		if p.isBucketVersioningEnabled(vStatus) {
+			inPlace = false
+		}
+	}
+	if inPlace {
 
 		// Delete the object metadata
 		for k := range mdmap {
